@@ -11,8 +11,11 @@ ENGINE_ID = 2
 RAW_COMPARE = True
 N = {"quick": 1200, "thorough": 30000}
 RULE = ("random API histories (add_resource 45%, add_window 25%, align_to 15%, freeze 5%, new map 10%; ~10% invalid "
-        "arguments) on worlds of 1-6 maps, names drawn from a collision-prone pool; non-trivial = at least 3 successful "
-        "additions, one failed call and one window; distinct by hash of the op list")
+        "arguments) on worlds of 1-6 maps, names drawn from a collision-prone pool, plus three directed streams: dense "
+        "(windows of ratio 2-8 with explicitly placed neighbours aimed at every address of the span and its borders), anon "
+        "(anonymous windows, nested, each immediately followed by equal/prefix/extension/same-spelling names) and tree "
+        "(2-4 levels with changing data widths); non-trivial = at least 3 successful additions, one failed call and one "
+        "window; distinct by hash of the op list")
 EXC = {"ValueError": 1, "TypeError": 2, "KeyError": 3, "AssertionError": 4}
 PARTS = ["a", "b", "ab", "0", "1", 0, 1, 2]
 NEVER = 99          # id of an object that is never added
